@@ -223,6 +223,9 @@ func GetLocationKey(l *prof.Location) uint64 {
 }
 
 func hashLines(lines []*prof.Line) uint64 {
+	if len(lines) == 0 {
+		return 0
+	}
 	x := make([]uint64, len(lines))
 	for i, line := range lines {
 		x[i] = line.FunctionId | (uint64(line.Line) << 32)
